@@ -130,7 +130,7 @@ func childA() {
 			lg.line("fail", map[string]any{"op": i, "err": err.Error()})
 			os.Exit(4)
 		}
-		lg.line("ack", map[string]any{"i": i})
+		lg.line("ack", map[string]any{"i": i, "hits": verifhook.AllHits()})
 		if i == rc.StopAfter {
 			syscall.Kill(os.Getpid(), syscall.SIGKILL)
 			select {}
